@@ -25,6 +25,8 @@ type Action struct {
 	Code int
 	Text []string // one entry per reply line; nil = default text
 	Raw  string
+	// NoTag: the reply is sent exactly as given, without the harness' per-reply tag at the end of its first line
+	NoTag bool
 }
 
 // Event is one thing the client did that calls for an answer.
@@ -272,6 +274,9 @@ func (s *Session) answer(ev *Event, def Action) []byte {
 			if act.Code == 334 {
 				tag = "" // challenges are base64, no room for a tag
 			}
+		}
+		if act.NoTag {
+			tag = ""
 		}
 		out = formatReply(act.Code, text, tag)
 		ex.Reply = out
